@@ -11,7 +11,7 @@ import (
 func init() {
 	props["C15"] = func(c *Ctx) {
 		c.R.Expl = "The parts of the disk layout that hold by construction for every disk size: (K1) the region starts form a cumulative chain (each start = previous start + the field that sizes the previous region; data region = [DataStart, MaxBnum) with MaxBnum = the disk size); (K2) layout constants agree (log size, inode table vs. inode bitmap, inode size vs. block size); (K3) mkfs marks exactly the range the run-time assertion accepts, with the same strictness, refuses sizes it cannot format, and reserves the null and root inode; (K4) the block bitmap covers the disk by the x/k+1 form."
-		c.R.NotDec = "the bit arithmetic of markAlloc at bitmap-block boundaries for each disk size; that the whole data region can be filled (quantifies over a run-time quantity through division and modulo: a job for enumeration or a solver, not for this family)."
+		c.R.NotDec = "that the whole data region can be filled through normal operations (allocator and journal behaviour); mkfs markings written in a form other than the two recognised bit loops (reported as undecided)."
 		ruleK1(c, "C15.K1")
 		ruleK2(c, "C15.K2")
 		ruleK3(c, "C15.K3")
